@@ -68,6 +68,18 @@ def run(report, db, tier):
     R5 = report.rule('R15.5', 'status-phase fallback: exactly EOFError, '
                      'close immediately, default version, handled')
     shared.eof_fallback_ps(report, R5, db, S)
+    # "takes the documented fallback": the fallback must end the probing --
+    # the allowed set is narrowed to the chosen version before reconnecting,
+    # or the next connect() asks for the status again, for ever
+    from ..common import borrow
+    from ..protocol import Proto
+    from . import c09
+    borrow(report, 'R15.6', 'the fallback ends the status probing: the '
+           'allowed versions are narrowed to the chosen one before the '
+           'reconnect (C09\'s status evaluation)',
+           lambda rid, c: c.startswith(('status:narrow', 'status:default',
+                                        'status:reconnect')),
+           lambda sub: c09.status_evaluation(sub, db, S, M, Proto(db)))
 
 
 def loop_events(paths):
